@@ -393,12 +393,13 @@ AddChecks(m, e) ==
   ELSE IF e.res = "err" THEN <<>>
   ELSE << <<"C01", "accepted-an-object-that-the-wire-format-cannot-carry",
               ~Has(e, "Ld") \/ Len(StripZ(e.Ld)) <= WireLenBytes(Obj(m, e.o).scheme), <<e.o, IF Has(e, "Ld") THEN e.Ld ELSE <<>> >> >>,
-         \* the largest source block must be within what the FEC scheme can encode: RFC 5053 K <= 8192, RFC 6330
-         \* K' <= 56403, Reed-Solomon over GF(2^8): at most 256 symbols (source and parity) per block
+         \* every source block must be within what the FEC scheme can encode: RFC 5053 4 <= K <= 8192 (the codec in use
+         \* also encodes a block of 1 symbol, not of 2 or 3), RFC 6330 K' <= 56403, Reed-Solomon over GF(2^8): at most
+         \* 256 symbols (source and parity) per block
          <<"C01", "accepted-an-object-whose-blocks-exceed-the-limit-of-the-fec-scheme",
               LET ob == Obj(m, e.o) IN
               ob.L <= 0 \/ LET al == ALarge(ob.L, ob.E, ob.B) IN
-                           CASE ob.scheme = 1 -> al <= 8192
+                           CASE ob.scheme = 1 -> al <= 8192 /\ \A b \in 0..(N(ob.L, ob.E, ob.B) - 1) : BlockSyms(ob.L, ob.E, ob.B, b) \notin {2, 3}
                              [] ob.scheme = 6 -> al <= 56403
                              [] ob.scheme \in {5, 129} -> al + ob.par <= 256
                              [] OTHER -> TRUE,
